@@ -322,7 +322,11 @@ func (g *Gen) Next(now int64) Op {
 			p64 := func(v int64) *int64 { return &v }
 			req := &SubReq{Name: SubName(s.name), Topic: TopicName(s.cfg.Topic), Ordering: s.cfg.Ordered}
 			var mask []string
-			switch g.R.Intn(5) {
+			switch g.R.Intn(6) {
+			case 5:
+				// the filter is replaced (or cleared): later publishes are routed by the new one
+				mask = []string{"filter"}
+				req.Filter = g.pick(filters)
 			case 0:
 				mask = []string{"retry_policy"}
 				req.HasRetry = g.R.Intn(4) > 0
